@@ -188,7 +188,7 @@ def parse_segment(seg):
     return r
 
 
-def run_kani(work, crate, harnesses, jobs=8, harness_timeout=900, extra=None, log=None, wall_timeout=None):
+def run_kani(work, crate, harnesses, jobs=8, harness_timeout=900, extra=None, log=None, wall_timeout=None, rss_limit_gb=12.0):
     """One cargo-kani invocation for several harnesses of one crate.
     harnesses: list of fully qualified names.  Per-harness output goes to files."""
     cmd = ['cargo', 'kani', '-p', crate, '-Z', 'function-contracts', '-Z', 'stubbing', '-Z', 'unstable-options',
@@ -201,15 +201,55 @@ def run_kani(work, crate, harnesses, jobs=8, harness_timeout=900, extra=None, lo
     env = dict(os.environ)
     env['CARGO_NET_OFFLINE'] = 'true'
     t0 = time.time()
+    limit = wall_timeout or (harness_timeout * (1 + len(harnesses) // max(1, jobs)) + 600)
+    killed = []
+    import tempfile
+    import threading
+    of = tempfile.TemporaryFile(mode='w+')
+    p = subprocess.Popen(cmd, cwd=work, env=env, stdout=of, stderr=subprocess.STDOUT, text=True, start_new_session=True)
+
+    def watchdog():
+        # no swap on this machine: a CBMC run that outgrows its share is killed and reported as undecided
+        while p.poll() is None:
+            time.sleep(5)
+            try:
+                for pid in os.listdir('/proc'):
+                    if not pid.isdigit():
+                        continue
+                    try:
+                        with open('/proc/%s/stat' % pid) as f:
+                            st = f.read()
+                        rest = st[st.rindex(')') + 2:].split()
+                        sid = int(rest[3])
+                        comm = st[st.index('(') + 1:st.rindex(')')]
+                        if sid != p.pid or comm != 'cbmc':
+                            continue
+                        rss_gb = int(rest[21]) * 4096 / 1e9
+                        if rss_gb > rss_limit_gb:
+                            os.kill(int(pid), 9)
+                            killed.append((pid, round(rss_gb, 1)))
+                    except (OSError, ValueError, IndexError):
+                        continue
+            except OSError:
+                pass
+    th = threading.Thread(target=watchdog, daemon=True)
+    th.start()
     try:
-        p = subprocess.run(cmd, cwd=work, env=env, capture_output=True, text=True,
-                           timeout=wall_timeout or (harness_timeout * (1 + len(harnesses) // max(1, jobs)) + 600))
-        out = p.stdout + '\n' + p.stderr
+        p.wait(timeout=limit)
         rc = p.returncode
-    except subprocess.TimeoutExpired as e:
-        out = (e.stdout or b'').decode(errors='replace') if isinstance(e.stdout, bytes) else (e.stdout or '')
-        out += '\n[wall timeout]\n'
+        of.seek(0)
+        out = of.read()
+    except subprocess.TimeoutExpired:
+        import signal
+        try:
+            os.killpg(p.pid, signal.SIGKILL)
+        except OSError:
+            pass
+        of.seek(0)
+        out = of.read() + '\n[wall timeout]\n'
         rc = -9
+    if killed:
+        out += '\n[rss watchdog killed cbmc: %s]\n' % killed
     if log:
         with open(log, 'w') as f:
             f.write(' '.join(cmd) + '\n' + out)
